@@ -119,13 +119,19 @@ class FakePollObject(object):
         return out
 
 
-CMD = {0: '/sim/ok', 1: '/sim/missing', 2: '/sim/noexec', 3: '/sim/noperm', 4: '/sim/dir', 5: 'sim/rel/ok'}   # 5: relative, used as given
+CMD = {0: '/sim/ok', 1: '/sim/missing', 2: '/sim/noexec', 3: '/sim/noperm', 4: '/sim/dir', 5: 'sim/rel/ok', 6: 'simcmd'}   # 5: relative, used as given
 
 
 class Driver(object):
     def __init__(self, script, listeners=False):
         self.script = script
         self.kernel = SimKernel()
+        if 'path' in script:
+            # the daemon's $PATH: None = unset, '' = set but empty (both mean the default search path)
+            env = dict((k_, v_) for k_, v_ in os.environ.items() if k_ != 'PATH')
+            if script['path'] is not None:
+                env['PATH'] = script['path']
+            self.kernel.environ = env
         self.U = float(script['U'])
         self.snaps = []
         self.pending = []     # deferred RPC answers: (req, kind, Deferred-callable)
